@@ -35,31 +35,39 @@ type outlink struct {
 	Via   string `json:"via"`
 	Hops  int    `json:"hops"`
 	After int    `json:"after_ms,omitempty"` // produced that long after the previous one (virtual time)
+	// Again: the same text was produced before; this one is discovered once that earlier delivery has come back as
+	// a seed and has been acknowledged (it waits in no queue any more: it must be queued, and come back, again)
+	Again bool `json:"again_after_the_acknowledgement,omitempty"`
 }
 
 var outlinkSets = map[string][]outlink{
 	"three": {
-		{"http://o.example/plain", "http://page.example/a", 0, 0},
-		{"http://o.example/with space?q=a b&r=50%25", "http://page.example/b?x=1", 1, 0},
-		{"http://ö.example/ünïcode/❤", "http://page.example/c#frag", 2, 0},
+		{"http://o.example/plain", "http://page.example/a", 0, 0, false},
+		{"http://o.example/with space?q=a b&r=50%25", "http://page.example/b?x=1", 1, 0, false},
+		{"http://ö.example/ünïcode/❤", "http://page.example/c#frag", 2, 0, false},
 	},
 	// outlinks discovered over time: the second one arrives while a timer-flushed batch holding the
 	// first may be in its retry back-off, the third after everything settled
 	"timed": {
-		{"http://o.example/first", "http://page.example/a", 1, 0},
-		{"http://o.example/second", "http://page.example/b", 3, 5500},
-		{"http://o.example/third", "http://page.example/c", 0, 7000},
+		{"http://o.example/first", "http://page.example/a", 1, 0, false},
+		{"http://o.example/second", "http://page.example/b", 3, 5500, false},
+		{"http://o.example/third", "http://page.example/c", 0, 7000, false},
+	},
+	// a page links to a URL that was crawled and acknowledged a while ago (menus and footers do that all the time)
+	"again-after-ack": {
+		{"http://o.example/x", "http://page.example/a", 1, 0, false},
+		{"http://o.example/x", "http://page.example/b", 2, 8000, true},
 	},
 	"repeat": {
-		{"http://o.example/same", "http://page.example/a", 1, 0},
-		{"http://o.example/same", "http://page.example/b", 1, 0},
-		{"http://o.example/other", "http://page.example/a", 3, 0},
+		{"http://o.example/same", "http://page.example/a", 1, 0, false},
+		{"http://o.example/same", "http://page.example/b", 1, 0, false},
+		{"http://o.example/other", "http://page.example/a", 3, 0, false},
 	},
 	// the repeated value closes the batch (a page whose last link points back to one seen before)
 	"repeat-last": {
-		{"http://o.example/other", "http://page.example/a", 3, 0},
-		{"http://o.example/same", "http://page.example/a", 1, 0},
-		{"http://o.example/same", "http://page.example/b", 1, 0},
+		{"http://o.example/other", "http://page.example/a", 3, 0, false},
+		{"http://o.example/same", "http://page.example/a", 1, 0, false},
+		{"http://o.example/same", "http://page.example/b", 1, 0, false},
 	},
 }
 
@@ -262,6 +270,10 @@ func scenario(s *scen) *vsched.Scenario {
 		}
 		go func() { // the postprocessor/finisher side: discovered outlinks
 			for i, l := range links {
+				if l.Again {
+					text := l.Text
+					vsched.Block("h:wait until the earlier delivery of this URL was acknowledged", nil, func() bool { return acked(s, o, text) })
+				}
 				if l.After > 0 {
 					time.Sleep(time.Duration(l.After) * time.Millisecond)
 				}
@@ -282,18 +294,22 @@ func scenario(s *scen) *vsched.Scenario {
 			}
 		}()
 	}
-	distinct := map[string]bool{}
+	expect := map[string]int{} // deliveries per text: one, plus one for every rediscovery after an acknowledgement
 	for _, l := range links {
-		distinct[l.Text] = true
+		if expect[l.Text] == 0 || l.Again {
+			expect[l.Text]++
+		}
 	}
 	goal := func() bool {
-		// every distinct outlink came back as a seed and every received seed was acknowledged
-		got := map[string]bool{}
+		// every outlink came back as a seed (as often as it had to) and every received seed was acknowledged
+		got := map[string]int{}
 		for _, r := range o.received {
-			got[r.Value] = true
+			got[r.Value]++
 		}
-		if len(got) < len(distinct) {
-			return false
+		for t, n := range expect {
+			if got[t] < n {
+				return false
+			}
 		}
 		if s.Queue == "hq" {
 			o.hq.mu.Lock()
@@ -349,6 +365,38 @@ func scenario(s *scen) *vsched.Scenario {
 	return sc
 }
 
+// acked: the URL came back as a seed and that seed was acknowledged (and, for the local queue, its row is gone)
+func acked(s *scen, o *obs, text string) bool {
+	o.mu.Lock()
+	var ids []string
+	for _, r := range o.received {
+		if r.Value == text {
+			ids = append(ids, r.ID)
+		}
+	}
+	o.mu.Unlock()
+	if len(ids) == 0 {
+		return false
+	}
+	if s.Queue == "hq" {
+		o.hq.mu.Lock()
+		defer o.hq.mu.Unlock()
+		for _, id := range ids {
+			found := false
+			for _, d := range o.hq.deleted {
+				found = found || d == id
+			}
+			if !found {
+				return false
+			}
+		}
+		return true
+	}
+	// local queue: the finish message was handed over; the delete follows within the 5 s of the finish batch's
+	// ticker (the rediscovery comes 8 s later; the queue is not read here: this predicate runs at every decision)
+	return true
+}
+
 func oracle(s *scen, x *vsched.Exec, o *obs, links []outlink, reached bool) error {
 	if !reached {
 		return fmt.Errorf("not-delivered: at the end (%s, %v virtual) not every outlink came back / was acknowledged; received %d, HQ calls %d", x.End, x.Now(), len(o.received), len(o.hq.calls))
@@ -369,7 +417,11 @@ func oracle(s *scen, x *vsched.Exec, o *obs, links []outlink, reached bool) erro
 			return fmt.Errorf("text-changed: the queue handed back %q, which was never produced", r.Value)
 		}
 		seen[r.Value]++
-		if r.Hops != l.Hops {
+		hopsOK := r.Hops == l.Hops
+		for _, c := range links { // a text discovered more than once: the delivery carries the hops of one of the discoveries (the one whose via it carries, checked below)
+			hopsOK = hopsOK || (c.Text == r.Value && c.Via == r.Via && c.Hops == r.Hops)
+		}
+		if !hopsOK {
 			return fmt.Errorf("hops-changed: %q was produced with hops %d and came back with %d", r.Value, l.Hops, r.Hops)
 		}
 		viaOK := r.Via == l.Via
@@ -388,7 +440,13 @@ func oracle(s *scen, x *vsched.Exec, o *obs, links []outlink, reached bool) erro
 	if s.Queue == "lq" {
 		// a URL already waiting in the local queue is not queued twice
 		for v, n := range seen {
-			if n > 1 {
+			allowed := 0
+			for _, l := range links {
+				if l.Text == v && (allowed == 0 || l.Again) {
+					allowed++
+				}
+			}
+			if n > allowed {
 				return fmt.Errorf("queued-twice: %q came back %d times from the local queue", v, n)
 			}
 		}
@@ -433,9 +491,9 @@ func scenarios(tier string) []scen {
 		F, P = 3, 1
 	}
 	var out []scen
-	for _, set := range []string{"three", "repeat", "repeat-last", "timed"} {
+	for _, set := range []string{"three", "repeat", "repeat-last", "timed", "again-after-ack"} {
 		for _, wb := range [][2]int{{2, 2}, {1, 3}, {2, 100}} { // size-triggered and ticker-triggered batches
-			if set == "timed" && wb[1] != 100 {
+			if (set == "timed" || set == "again-after-ack") && wb[1] != 100 {
 				continue
 			}
 			out = append(out, scen{Queue: "hq", Outlinks: set, Workers: wb[0], Batch: wb[1], P: P, F: F})
